@@ -301,6 +301,12 @@ private:
             }
 
         } // for
+
+        // pixel values index the palette with up to 8 bits: indices beyond the declared entries read black, not out of bounds
+        if( this->_palette.size() < 256 )
+        {
+            this->_palette.resize( 256, rgba8_pixel_t(0,0,0,0) );
+        }
     }
 
     template< typename View >
